@@ -5,6 +5,7 @@ package discoverychain
 
 import (
 	"fmt"
+	"sort"
 	"strings"
 	"time"
 
@@ -451,9 +452,20 @@ func (c *compiler) detectCircularReferences() error {
 }
 
 func (c *compiler) flattenAdjacentSplitterNodes() error {
+	// Visit the nodes in a stable order: every flattening step multiplies two
+	// weights and rounds the product, so the compiled weights depend on the
+	// order in which nested splitters are merged. Ranging over the map made
+	// the output differ between compilations of the same input.
+	keys := make([]string, 0, len(c.nodes))
+	for key := range c.nodes {
+		keys = append(keys, key)
+	}
+	sort.Strings(keys)
+
 	for {
 		anyChanged := false
-		for _, node := range c.nodes {
+		for _, key := range keys {
+			node := c.nodes[key]
 			if node.Type != structs.DiscoveryGraphNodeTypeSplitter {
 				continue
 			}
